@@ -66,6 +66,18 @@ CLAIMED = {
    "Seeded adversarial traffic (no FDT with in-band FTI, no FDT with FDT-only OTI, one symbol missing per block, thousands of TOIs / FDT instance ids / sessions; 20x more traffic than the configured cache) into the real receiver under a counting global allocator and the simulated monotonic clock; oracle: held bytes bounded by configuration, object abandoned and counted, error list bounded, everything released after timeouts + cleanup.",
    "bookkeeping allowances as stated in the evidence; hook H1 faithful",
    "deterministic simulation with adversarial traffic + heap accounting (counting allocator) + simulated timeouts"),
+ "C05": ("fault_enumeration", "4.C05",
+   "Every Content-Location string of the property's prefix x segment grammar (depth 3 quick / 5 thorough) plus seeded random strings, each delivered to the real filesystem writer through four simulated sessions whose outcome is decided by injected faults (complete, loss until object timeout, close-object before completion, receiver dropped); the directory tree around the destination (canaries at 7 levels) must be byte-identical afterwards. Sessions run in a forked child chroot()ed into the jail, so an escape is observable and harmless.",
+   "claimed although input-heavy: which filesystem operations run (incl. delete) is decided by fault-driven session outcomes (DESIGN 4.C05); needs root for chroot (harness error otherwise)",
+   "deterministic simulation with enumerated inputs x injected session-outcome faults + filesystem snapshot oracle in a chroot jail"),
+ "C18": ("exploration", "4.C18",
+   "All filter operation sequences to depth 3 (quick) / 4 (thorough) probed against a saturating-counter model; 2-4 real sessions merged by a seeded interleaver vs each alone (metamorphic), close-session packets, session timeouts on the simulated monotonic clock with per-read jitter, cleanup cadence; listener open/close automaton.",
+   "saturating-counter reading of 'added more often than removed'; hook H1 jitter",
+   "deterministic simulation (seeded stream interleavings + exhaustive filter histories) + metamorphic and reference-model oracles"),
+ "C19": ("exploration", "4.C19",
+   "Seeded receiver clock offsets (seconds to decades), jumps, transit delays around the expiry instant (outside +-2 s), durations, SCT present/absent, check on/off, object before/after the FDT; expiry model on the estimated sender clock and a metamorphic skew-invariance check on the writer trace.",
+   "the FDT's own transit delay is absorbed by the SCT offset (as flute computes it)",
+   "deterministic simulation with clock-skew/jump and delay injection + expiry reference model + metamorphic check"),
 }
 NOT_APPLICABLE = {
  "C06": "pure codec function of its input (encode/parse of one packet): no schedule, clock, fault or interleaving to simulate; deciding it is input enumeration, not simulation (DESIGN.md s5)",
